@@ -51,6 +51,9 @@ pub fn palette() -> Vec<(&'static str, Vec<u8>)> {
         ("206_crlf_multipart", req("GET", "/crlf.txt", &[("Range", "bytes=0-9, 20-29")], b"")),
         ("200_gz_sibling_accept_gzip", req("GET", "/file.txt", &[("Accept-Encoding", "gzip")], b"")),
         ("head_bom_json", req("HEAD", "/bom.json", &[], b"")),
+        // a client that announces a body and waits for the go-ahead before sending it
+        ("expect_continue_post", req("POST", FORM_URLENC, &[("Content-Type", "application/x-www-form-urlencoded"), ("Content-Length", "7"), ("Expect", "100-continue")], b"")),
+        ("expect_continue_put", req("PUT", "/file.txt", &[("Content-Length", "3"), ("Expect", "100-continue")], b"")),
     ]
 }
 
@@ -85,9 +88,20 @@ pub fn enumerated(seed: u64, idx: u64) -> Scenario {
     let k = (idx / per) as usize % pal.len();
     let p = idx % per;
     let cuts = if p < MAX_CHUNK { Cuts::Every((p + 1) as usize) } else { Cuts::At(vec![(p - MAX_CHUNK + 1) as usize]) };
-    let (class, bytes) = pal[k].clone();
-    sc.conns.push(Conn::simple(0, 0, bytes.clone(), class));
+    let (class, mut bytes) = pal[k].clone();
+    // the client that waits for the go-ahead sends its body as a second piece, a little later
+    let mut delivery = vec![];
+    // (only where the answer does not depend on whether the body had arrived when the server read)
+    if class == "expect_continue_put" {
+        let head = bytes.len();
+        bytes.extend_from_slice(b"abc");
+        delivery = vec![Seg { len: head, yields_before: 0 }, Seg { len: bytes.len() - head, yields_before: 6 }];
+    }
+    let mut a = Conn::simple(0, 0, bytes.clone(), class);
+    a.delivery = delivery.clone();
+    sc.conns.push(a);
     let mut c = Conn::simple(1, 1, bytes, class);
+    c.delivery = delivery;
     c.faults.cuts = cuts;
     c.twin = Some(0);
     sc.conns.push(c);
